@@ -13,6 +13,7 @@ import (
 	"github.com/semihalev/sdns/internal/contextutil"
 	"github.com/semihalev/sdns/internal/dnsutil"
 	"github.com/semihalev/sdns/middleware"
+	"github.com/semihalev/sdns/middleware/resolver/dnssec"
 	"github.com/semihalev/zlog/v2"
 )
 
@@ -159,7 +160,19 @@ func (h *DNSHandler) handle(ctx context.Context, req *dns.Msg) *dns.Msg {
 	// Start recursive resolution from root servers
 	depth := h.cfg.Maxdepth
 	isRootQuery := q.Name == rootzone
-	resp, err := h.resolver.Resolve(ctx, req, h.resolver.rootServers, true, depth, 0, false, nil, isRootQuery)
+	var (
+		resp *dns.Msg
+		err  error
+	)
+	if h.resolver.dnssec && !req.CheckingDisabled && !h.resolver.hasTrustAnchors() {
+		// Fail closed before the first lookup, not at the first
+		// validation: a resolution that dies earlier (lame or unreachable
+		// servers) must end in the same verdict, or the failure looks like
+		// an outage and failover answers with data nobody can validate.
+		err = dnssec.ErrTrustAnchorsUnavailable
+	} else {
+		resp, err = h.resolver.Resolve(ctx, req, h.resolver.rootServers, true, depth, 0, false, nil, isRootQuery)
+	}
 	requestCtxErr := contextutil.EffectiveError(ctx)
 
 	// Restore original CD flag if DNSSEC is not supported
